@@ -147,7 +147,9 @@ func Feed(w io.Writer, doc []byte, cuts []int, scribble bool, clock *uint64) (in
 		if cap(scratch) < len(chunk) {
 			scratch = make([]byte, len(chunk))
 		}
-		buf := scratch[:len(chunk)]
+		// capacity clamped to the length: a parser that slices or re-slices
+		// beyond what it was given panics instead of reading stale bytes
+		buf := scratch[:len(chunk):len(chunk)]
 		copy(buf, chunk)
 		if clock != nil {
 			*clock++
@@ -176,4 +178,13 @@ func Feed(w io.Writer, doc []byte, cuts []int, scribble bool, clock *uint64) (in
 		return len(cuts), err
 	}
 	return -1, nil
+}
+
+// Exact returns a copy of b whose capacity equals its length, so that a
+// library slicing beyond the bytes it was given panics instead of reading
+// whatever the allocator left behind them.
+func Exact(b []byte) []byte {
+	out := make([]byte, len(b))
+	copy(out, b)
+	return out
 }
